@@ -24,7 +24,12 @@
         (I eps depth / D eps / M / F prec) with integrand t -> g(x,t) (fexpr g in x and y := t) and limits lo(x), hi(x)
         (fexprs in x).  Answer: value warn count  inner-evaluations-total  largest-inner-count  inner-warnings
         inner-evaluations-outside-their-limits (model: 0)  answers-that-differ-from-the-call-made-alone (model: 0)
-        first-such-abscissa (model: 0)  trace of the outer call *)
+        first-such-abscissa (model: 0)  trace of the outer call
+     diag  a b eps depth fam np p.. <fexpr>   -> value warn count  swap-notice(stderr) nan-notice inf-notice   (integrate_report)
+     named <method> a b  fam np p.. <fexpr>   -> Integrate(f,a,b,method): EXIT (unrecognised name) | SKIP (another recognised method,
+                                                 distinct limits: not modelled, not called) | value warn count
+     i2d x1 x2 y1 y2 fam np p.. <fexpr in x y>        -> Integrate_2D(..,"Adaptive-Simpson"): value warn count xmin xmax ymin ymax
+     i3d x1 x2 y1 y2 z1 z2 fam np p.. <fexpr in x y z> -> Integrate_3D(..,"Adaptive-Simpson"): value warn count *)
 open Common
 let trace_cap = 4500
 let skip_family r = let _ = word r in let n = integer r in for _ = 1 to n do ignore (num r) done
@@ -132,6 +137,32 @@ let handler r =
         put_f (List.fold_left (fun a x -> if x < a then x else a) Float.infinity t);
         put_f (List.fold_left (fun a x -> if x > a then x else a) Float.neg_infinity t)
       end
+  | "diag" -> let a = num r in let b = num r in let eps = num r in let d = integer r in
+      skip_family r; let f = fun1 (parse_fexpr r) in
+      let (((v, w), t), ((notice, wnan), winf)) = integrate_report fops f a b eps (z_of_int d) in
+      put_f v; put_b w; put_i (List.length t); put_b notice; put_b wnan; put_b winf
+  | "named" -> let name = word r in let a = num r in let b = num r in
+      skip_family r; let f = fun1 (parse_fexpr r) in
+      let m = match name with
+        | "Adaptive-Simpson" -> MAdaptiveSimpson
+        | "Trapezoidal" | "Gauss-Legendre" | "Gauss-Kronrod" | "Tanh-Sinh" | "Gauss-Legendre_2" -> MOther
+        | _ -> MUnknown in
+      (match integrate_named fops m f a b with
+       | Exit -> put_w "EXIT"
+       | Ok None -> put_w "SKIP"
+       | Ok (Some ((v, w), t)) -> put_f v; put_b w; put_i (List.length t)
+       | _ -> put_w "MODELERR res")
+  | "i2d" -> let x1 = num r in let x2 = num r in let y1 = num r in let y2 = num r in
+      skip_family r; let g = parse_fexpr r in
+      let ((v, w), t) = integrate_2d fops (fun x y -> eval_fexpr g [| x; y; 0.0 |]) x1 x2 y1 y2 in
+      put_f v; put_b w; put_i (List.length t);
+      let mn sel = List.fold_left (fun a p -> let x = sel p in if x < a then x else a) Float.infinity t in
+      let mx sel = List.fold_left (fun a p -> let x = sel p in if x > a then x else a) Float.neg_infinity t in
+      put_f (mn fst); put_f (mx fst); put_f (mn snd); put_f (mx snd)
+  | "i3d" -> let x1 = num r in let x2 = num r in let y1 = num r in let y2 = num r in let z1 = num r in let z2 = num r in
+      skip_family r; let g = parse_fexpr r in
+      let ((v, w), n) = integrate_3d fops (fun x y z -> eval_fexpr g [| x; y; z |]) x1 x2 y1 y2 z1 z2 in
+      put_f v; put_b w; put_i (int_of_nat n)
   | o -> put_w ("MODELERR unknown_op_" ^ o)
 
 let () = run handler
